@@ -105,6 +105,7 @@ def base_world(conv: str, rng: random.Random) -> dict:
     if conv == "ugrid":
         m = meshtabs.supplied_tables(W.mesh_from_squares([["Q", "A"]]), rng)
         w = W.counts_world("ugrid", nface=len(m["faces"]), nnode=len(m["nodes"]), nedge=len(m["edges"]))
+        m["face_centres"] = [[m["nodes"][f[0]][0] + 1, m["nodes"][f[0]][1] + 2] for f in m["faces"]]      # face_x / face_y coordinate variables
         w["mesh"] = m
         w["enc"] = {"base": 0, "fill": "nan", "supplied": ["en"], "edge_dim": "implied", "coords_as": "plain"}
     elif conv == "cf1d":
